@@ -91,6 +91,8 @@ pub struct Run {
     /// cumulative premium fraction at which each trader's position was last charged funding
     /// (harness-side ledger: successful Open / Close / Withdraw by the trader, full liquidation)
     pub charged_at: BTreeMap<&'static str, Integer>,
+    /// a funding settlement has succeeded earlier in this history
+    pub funding_settled: bool,
 }
 
 pub fn deploy_or_drop(cfg: Cfg) -> World {
@@ -105,7 +107,7 @@ pub fn deploy_or_drop(cfg: Cfg) -> World {
 
 impl Run {
     pub fn new(cfg: Cfg, mon: Mon) -> Run {
-        Run { w: deploy_or_drop(cfg), mon, vi: 0, steps: 0, fault: None, charged_at: BTreeMap::new() }
+        Run { w: deploy_or_drop(cfg), mon, vi: 0, steps: 0, fault: None, charged_at: BTreeMap::new(), funding_settled: false }
     }
     pub fn snap(&self) -> Snap {
         let w = &self.w;
@@ -171,6 +173,9 @@ impl Run {
         self.monitors(&rec);
         crate::oracle::step_oracle(self, &rec);
         // funding ledger: which cumulative fraction the sender's position is settled up to
+        if rec.tx.ok && matches!(rec.op, Op::PayFunding { .. }) {
+            self.funding_settled = true;
+        }
         if rec.tx.ok {
             let who = rec.op.sender();
             match &rec.op {
